@@ -1455,6 +1455,13 @@ class _IndexGOMixin:
         Args:
             values: can be a generator.
         '''
+        # validate all values before appending any, so that a rejected call leaves the index unchanged
+        values = tuple(values)
+        if len(set(values)) != len(values):
+            raise KeyError('duplicate keys in extend')
+        for value in values:
+            if self.__contains__(value): #type: ignore
+                raise KeyError(f'duplicate key append attempted: {value}')
         for value in values:
             self.append(value)
 
